@@ -7,6 +7,7 @@ import Chrono.Proofs.DeltaDivL
 import Chrono.Proofs.DeltaDisplayL
 import Chrono.Proofs.DeltaOpsL
 import Chrono.Proofs.DeltaCanonL
+import Chrono.Proofs.DeltaCanonUniqL
 
 namespace Chrono.Props.C06
 open Chrono Chrono.M Chrono.Spec Chrono.Proofs Chrono.Extracted
@@ -473,5 +474,38 @@ example :
       by decide, Or.inr ⟨[56, 48, 55], by decide⟩, by decide⟩,
    ⟨[48], [46, 48, 48, 48, 48, 48, 49], by decide, by decide,
       Or.inr ⟨[48, 48, 48, 48, 48, 49], by decide⟩, by decide⟩⟩
+
+/-- the shape predicates leave exactly one text per value (a fact about the specification alone): two
+texts of canonical shape — `P0D` or `canonText` — that the reader maps to the same value are equal -/
+theorem canonical_text_unique (t1 t2 : List Nat)
+    (h1 : t1 = [80, 48, 68] ∨ ∃ n, canonText n t1) (h2 : t2 = [80, 48, 68] ∨ ∃ n, canonText n t2)
+    (hv : readDuration t1 = readDuration t2) : t1 = t2 := by
+  have hz : readDuration [80, 48, 68] = some 0 := by decide
+  rcases h1 with rfl | ⟨n1, c1⟩ <;> rcases h2 with rfl | ⟨n2, c2⟩
+  · rfl
+  · rw [hz] at hv; exact absurd hv.symm (DeltaCanonUniq.canon_ne_zero n2 t2 c2)
+  · rw [hz] at hv; exact absurd hv (DeltaCanonUniq.canon_ne_zero n1 t1 c1)
+  · exact DeltaCanonUniq.canon_unique n1 n2 t1 t2 c1 c2 hv
+
+/-- hence the Display text is THE text of canonical shape denoting `ns a`: any text of canonical shape
+that the reader maps to `ns a` is what `Display` writes -/
+theorem display_unique (a : Delta) (ha : DInv a) (t : List Nat)
+    (hs : t = [80, 48, 68] ∨ ∃ n, canonText n t) (hv : readDuration t = some (ns a)) :
+    Delta.display a = .ok t := by
+  obtain ⟨t', hd, hz, hc, _, _⟩ := display_canonical a ha
+  obtain ⟨t'', hd', hr⟩ := display_value' a ha
+  have : t'' = t' := by rw [hd] at hd'; cases hd'; rfl
+  subst this
+  have hs' : t'' = [80, 48, 68] ∨ ∃ n, canonText n t'' := by
+    by_cases h0 : ns a = 0
+    · exact Or.inl (hz h0)
+    · exact Or.inr ⟨_, hc h0⟩
+  rw [hd, canonical_text_unique t'' t hs' hs (by rw [hr, hv])]
+
+/-- non-vacuity: texts the reader accepts with the value of a canonical text but of another shape exist
+(`PT007S` reads as 7 s, like `PT7S`), so uniqueness is a property of the shape predicates, not of the reader -/
+example : readDuration [80, 84, 48, 48, 55, 83] = readDuration [80, 84, 55, 83] ∧
+    readDuration [80, 84, 55, 83] = some 7000000000 ∧
+    readDuration [80, 84, 48, 83] = readDuration [80, 48, 68] := by decide
 
 end Chrono.Props.C06
